@@ -26,7 +26,7 @@ REGISTRY = dict(
           "reps_i consecutive copies of trajectory i; 'Full' default with a time-less observable is rejected. FULL in "
           "exact arithmetic. Model tied to the code by bit-exact binary64 correspondence of _get_target_times and a Q-vs-"
           "float comparison of the number of grid points."),
-    note=("Trusted: Lean kernel + propext/Classical.choice/Quot.sound; Mathlib; hand-written Model.TimeGrid tied by "
+    note=("Trajectory requests run the real PulserData.__init__ on a 3-atom MockDevice sequence (noise model from device or config). Trusted: Lean kernel + propext/Classical.choice/Quot.sound; Mathlib; hand-written Model.TimeGrid tied by "
           "correspondence only; binary64 rounding is outside the theorems (probed by the Q-vs-float comparison); the "
           "sequence is a mock exposing get_duration; trajectories are mocks of HamiltonianData.noisy_samples (pulser's "
           "own count of trajectories is assumed); the Omega rows come from the real _extract_omega_delta_phi on a mock "
@@ -339,6 +339,91 @@ def rows_and_reps(rep, rng, n):
     return lines, expect, what
 
 
+TRAJ_STOCHASTIC = {"amp", "spam", "amp+spam"}
+
+
+def run_traj_case(data):
+    """One real `PulserData.__init__` + `get_sequences` on a real pulser Sequence (3 atoms, MockDevice with the
+    given default noise model). Returns (failure message or None, seen n_trajectories, requested, yielded)."""
+    import dataclasses
+    import warnings
+    import pulser
+    from pulser.backend.config import EmulationConfig
+    from pulser.noise_model import NoiseModel
+    import emu_base.pulser_adapter as pa
+    from unittest import mock
+    noises = {
+        "none": NoiseModel(),
+        "amp": NoiseModel(amp_sigma=0.1),
+        "spam": NoiseModel(state_prep_error=0.3),
+        "amp+spam": NoiseModel(amp_sigma=0.05, state_prep_error=0.2),
+        "relax": NoiseModel(relaxation_rate=0.1),
+    }
+    dn, cn, pf, ntraj = data["device_noise"], data["config_noise"], data["prefer_device_noise_model"], data["n_trajectories"]
+    device = dataclasses.replace(pulser.MockDevice, default_noise_model=noises[dn])
+    reg = pulser.Register({"q0": [-4.0, 0.0], "q1": [4.0, 0.0], "q2": [12.0, 0.0]})
+    seq = pulser.Sequence(reg, device)
+    seq.declare_channel("ch0", "rydberg_global")
+    seq.add(pulser.Pulse.ConstantPulse(52, 2.0, 0.5, 0.0), "ch0")
+    kw = dict(observables=[], interaction_cutoff=0.0, n_trajectories=ntraj, prefer_device_noise_model=pf)
+    if not pf:
+        kw["noise_model"] = noises[cn]
+    seen = {}
+    real = pa.HamiltonianData.from_sequence
+
+    def spy(*a, **k):
+        seen.update(k)
+        return real(*a, **k)
+    with warnings.catch_warnings():
+        warnings.simplefilter("ignore")
+        config = EmulationConfig(**kw)
+        with mock.patch.object(pa.HamiltonianData, "from_sequence", spy):
+            pd = pa.PulserData(sequence=seq, config=config, dt=10)
+        requested = sum(r for _, r in pd.hamiltonian.noise_trajectories)
+        yielded = sum(1 for _ in pd.get_sequences())
+    resolved = dn if pf else cn
+    src = "device" if pf else "config"
+    msg = None
+    if seen.get("n_trajectories") != ntraj and resolved != "none":
+        msg = (f"HamiltonianData.from_sequence was asked for {seen.get('n_trajectories')} trajectories, config.n_trajectories "
+               f"= {ntraj}, resolved noise model '{resolved}' (from the {src})")
+    elif resolved in TRAJ_STOCHASTIC and requested != ntraj:
+        msg = f"pulser returned {requested} trajectory repetitions for n_trajectories = {ntraj} with stochastic noise '{resolved}'"
+    elif yielded != requested:
+        msg = f"get_sequences yielded {yielded} SequenceData for {requested} requested repetitions"
+    elif seen.get("noise_model") is not None and seen["noise_model"] != noises[resolved]:
+        msg = f"noise model handed to pulser is not the resolved one ('{resolved}')"
+    return msg, seen.get("n_trajectories"), requested, yielded
+
+
+def trajectory_requests(rep, rng, n):
+    """Noise model from the config or from the device (`prefer_device_noise_model` on/off), stochastic /
+    Lindblad-only / no noise, n_trajectories 1..12: the number of trajectories requested from pulser and of
+    SequenceData yielded must be config.n_trajectories whenever the RESOLVED noise model is stochastic."""
+    lines, expect = [], []
+    names = ["none", "amp", "spam", "amp+spam", "relax"]
+    combos = [(dn, cn, pf) for dn in names for cn in names for pf in (False, True)]
+    rng.shuffle(combos)
+    combos = [("amp+spam", "none", True)] + combos[:n]
+    for dn, cn, pf in combos:
+        data = dict(device_noise=dn, config_noise=cn, prefer_device_noise_model=pf, n_trajectories=rng.choice([2, 3, 7, 12]))
+        try:
+            msg, seen_n, requested, yielded = run_traj_case(data)
+        except Exception as e:
+            rep.notes.append(f"trajectory_requests: {data} could not run in this environment: {type(e).__name__}: {str(e)[:120]}")
+            rep.hist("trajectory_request", "not runnable")
+            continue
+        resolved = dn if pf else cn
+        rep.hist("trajectory_request", f"{'device' if pf else 'config'}:{resolved}")
+        rep.case(key=json.dumps(data), nontrivial=True, sample=dict(data, requested=requested, yielded=yielded))
+        if msg:
+            rep.fail(msg, data, klass=None)
+        if resolved != "none":
+            lines.append(f"tg.traj {int(pf)} {data['n_trajectories']}")
+            expect.append(f"{'dev' if pf else 'cfg'} {seen_n}")
+    return lines, expect
+
+
 def check(rep: Report, tier: str, seed: int) -> None:
     rep.rule = ("cases = (duration, dt, default times, per-observable times) from one PRNG: durations 1..10000, dt from a "
                 "22-value table (0.1..1000) plus duration-relative and random rational dts (dividing, non-dividing, = and > "
@@ -360,6 +445,8 @@ def check(rep: Report, tier: str, seed: int) -> None:
     l1, e1 = merge_level(rep, rng, 400 if tier == "quick" else 8000)
     l2, e2, what = rows_and_reps(rep, rng, 60 if tier == "quick" else 800)
     sweep_oracle(rep, rng, 120 if tier == "quick" else 2500)
+    l3, e3 = trajectory_requests(rep, rng, 24 if tier == "quick" else 50)
+    l2, e2 = l2 + l3, e2 + e3
     try:
         out = Driver().batch(l0 + l1 + l2)
     except LeanError as e:
@@ -416,6 +503,11 @@ def replay(rep: Report, path: str) -> int:
     bad = 0
     for f in data.get("failing_inputs", []):
         d = f["data"]
+        if "device_noise" in d:
+            msg = run_traj_case(d)[0]
+            print("replay:", msg or "property holds on this input now")
+            bad += bool(msg)
+            continue
         if "reps" in d and "D" not in d:
             import torch
             nq = len(d["bad_atoms"][0]) if d.get("bad_atoms") else 2
